@@ -29,6 +29,14 @@ claimed["C13"] = dict(
    ref="DESIGN.md 5/C13, engines E6+E2",
    technique="static error-propagation (dominance/region analysis on go/ssa), who-may-call rule for raw Read, typed-AST count accumulation, must-pass-through gate (custom analyzer)")
 
+claimed["C03"] = dict(
+   text="Static path analysis decides the rejection plumbing that soundness needs and that positive-only tests cannot see: on every path, every error raised inside "
+        "the verification spine reaches the caller as a non-nil error; a root is counted as matched only under an equality between a stored root and a recomputed "
+        "candidate; success is returned only behind 'candidates == matches'; the hashing core sees caller-supplied hashes only behind a length check. These are "
+        "necessary conditions of soundness, decided for all inputs; that the core recomputes the right candidates (arithmetic, hashing) is not decided.",
+   ref="DESIGN.md 5/C03, engine E2",
+   technique="static error-propagation and guard (dominating branch edge) analysis on go/ssa; anchors resolved by role (custom analyzer)")
+
 pending = {}  # id -> reason, for properties whose check is not built yet
 
 not_applicable = {
